@@ -252,3 +252,9 @@ example : Finite (⟨4609434218613702656⟩ : F64) ∧ val ⟨460943421861370265
 example : waitNanos ⟨13830554455654793216⟩ = -1000000000 := by decide
 
 end Ysgo.C10
+
+#print axioms Ysgo.C10.waitNanos_cases
+#print axioms Ysgo.C10.wait_duration
+#print axioms Ysgo.C10.wait_duration_upper
+#print axioms Ysgo.C10.wait_duration_exact
+#print axioms Ysgo.C10.wait_duration_dyadic
